@@ -32,7 +32,7 @@ type spec struct {
 var specs = map[string]spec{
 	"C06": {
 		jobs: []job{
-			{name: "programs", test: "TestC06Programs", rapid: true, checks: [2]int{80, 1200}, shards: [2]int{8, 12}, secs: [2]int{900, 7200}},
+			{name: "programs", test: "TestC06Programs", rapid: true, checks: [2]int{80, 600}, shards: [2]int{8, 12}, secs: [2]int{900, 7200}},
 			{name: "rigrandom", test: "TestC06RigRandom", rapid: true, checks: [2]int{2500, 100000}, shards: [2]int{4, 8}, secs: [2]int{900, 7200}},
 			{name: "rigexhaustive", test: "TestC06RigExhaustive", shards: [2]int{16, 16}, count: [2]int{3, 4}, secs: [2]int{900, 14400}},
 		},
@@ -41,7 +41,7 @@ var specs = map[string]spec{
 	},
 	"C08": {
 		jobs: []job{
-			{name: "determinism", test: "TestC08", rapid: true, checks: [2]int{300, 8000}, shards: [2]int{8, 8}, secs: [2]int{900, 7200}, cores: 2},
+			{name: "determinism", test: "TestC08", rapid: true, checks: [2]int{300, 4000}, shards: [2]int{8, 8}, secs: [2]int{900, 7200}, cores: 2},
 			{name: "queueiterate", test: "TestC08QueueIterate", shards: [2]int{2, 4}, count: [2]int{30000, 1000000}, secs: [2]int{600, 7200}, cores: 4},
 			{name: "queuerace", test: "TestC08QueueIterate", race: true, shards: [2]int{1, 2}, count: [2]int{3000, 60000}, secs: [2]int{600, 3600}, cores: 4},
 		},
@@ -50,9 +50,9 @@ var specs = map[string]spec{
 	},
 	"C12": {
 		jobs: []job{
-			{name: "model", test: "TestC12Model", rapid: true, checks: [2]int{200, 6000}, shards: [2]int{12, 12}, secs: [2]int{900, 7200}},
+			{name: "model", test: "TestC12Model", rapid: true, checks: [2]int{200, 3000}, shards: [2]int{12, 12}, secs: [2]int{900, 7200}},
 			{name: "table", test: "TestC12Table", secs: [2]int{300, 300}},
-			{name: "valueindep", test: "TestC12ValueIndependence", rapid: true, checks: [2]int{150, 4000}, shards: [2]int{6, 6}, secs: [2]int{900, 7200}},
+			{name: "valueindep", test: "TestC12ValueIndependence", rapid: true, checks: [2]int{150, 2000}, shards: [2]int{6, 6}, secs: [2]int{900, 7200}},
 		},
 		rule:        "model = programs of the profiles REG/MEM/WALK/MEMSAFE and JUMPS (chains of jumps between blocks of 1-3 instructions laid out in a drawn order with 0-30 never-executed instructions between them, visited in another order: fetch keeps leaving the cached window forwards and backwards): MVP-1's count must equal the sum over the executed instructions (reference trace) of fetch (MemoryAccess) + decode 1 + memory read for a load (MemoryAccess) + InstructionType.Cycles() + write-back (RegisterAccess for a register result, MemoryAccess for a store; ret counts up to execute), the constants being read from common/latency and from the code so that the formula is the oracle; MVP-2 <= MVP-1 on the same run; on every configuration cycles > 0 and cycles >= ceil(executed / max(2, parallelism)) — the relations that use the executed-instruction count are judged only on runs whose result equals the reference. table = the 6 constants of common/latency and InstructionType.Cycles() of the 45 types against the documented values (loads 50, everything else 1), enumerated completely. valueindep = programs whose registers are split into control/address registers and data registers (data never feeds a branch, an address or a divisor; loads write data registers only), including conditional branches on data registers whose target is the next instruction (taken or not, the path is the same), two initial states that differ only in data registers, the reference confirming identical pc and address traces: the cycle counts must be equal on every configuration. Non-trivial = (model) the trace has a load, a store and a taken transfer, or is a jump chain of >= 6 executed instructions, (valueindep) the two runs end with different registers; distinct by (text, registers, memory image).",
 		assumptions: []string{"the documented latency table is the one of the pinned commit (common/latency cites its source; TestBenchmarks pins cycle counts derived from it): job 'table' compares the constants with it", "issue width bound max(2, parallelism) is deliberately loose"},
@@ -86,43 +86,43 @@ var specs = map[string]spec{
 		assumptions: []string{"tags are distinct per in-flight instruction; equal tags resolve to the later arrival", "out-of-order tag arrival is excluded from the value claims while finding F14 is listed in known-findings.txt (the never-younger read claim is judged regardless)"},
 	},
 	"C01": {
-		jobs:        []job{{name: "mixed", test: "TestC01", rapid: true, checks: [2]int{1000, 30000}, shards: [2]int{16, 16}, secs: [2]int{900, 7200}}},
+		jobs:        []job{{name: "mixed", test: "TestC01", rapid: true, checks: [2]int{1000, 15000}, shards: [2]int{16, 16}, secs: [2]int{900, 7200}}},
 		rule:        "Programs drawn by the concolic builder from the profiles REG 38% / MEM 30% / SHADOW 15% / WALK 9% / OWNER 8% (OWNER = lines owned by one core, shared lines upgraded, and memory work waiting behind a cache miss while a younger taken branch or first-time jump redirects the pipeline) (3-60 static instructions in quick, up to 200 in thorough; all mnemonics; full-range initial registers; memory images 64 B - 16 KB; exit by ret or fall-through), each run on all 33 configurations (12 variants, parallelism 1..4) and compared with the reference: 32 registers, every memory byte, no error, no panic, within the budget. Non-trivial = >= 5 executed instructions, >= 1 register written and two adjacent independent instructions in the trace; distinct by (program text, registers, memory image).",
 		assumptions: []string{"the reference interpreter harness/ref is the sequential semantics (cross-checked per instruction by C02)", "parallelism p means EU = WU = p on MVP-6.x and p cores on MVP-7.x/8", "a case matching the trigger of a finding listed in /verif/known-findings.txt is not judged on the configurations of that finding (counted under excluded_by_known_finding)", "budget of simulated loop iterations = 16 x (executed instructions + 64) x 309, never wall-clock"},
 	},
 	"C03": {
-		jobs:        []job{{name: "shadow", test: "TestC03", rapid: true, checks: [2]int{1000, 40000}, shards: [2]int{16, 16}, secs: [2]int{900, 7200}}},
+		jobs:        []job{{name: "shadow", test: "TestC03", rapid: true, checks: [2]int{1000, 20000}, shards: [2]int{16, 16}, secs: [2]int{900, 7200}}},
 		rule:        "SHADOW / SHADOWSLOW programs: taken conditional branches (70%) and j/jal/jalr over shadows of 1-4 hostile instructions (register writes, stores of every width, in-bounds loads, loads from out-of-bounds and negative addresses, div/rem by the zero register, jal, a further branch), branch operands produced by ALU instructions or by loads issued right before the branch (hit or miss: the branch resolves 1 to ~300 cycles after its shadow was dispatched), loop back-edges whose shadow is the loop exit code; run on all 33 configurations (MVP-1..3 as anchors) and compared with the reference. Non-trivial = some control transfer is taken in the reference run and re-running the reference with that transfer forced to fall through changes the final state or faults (the shadow is hostile); distinct by (text, registers, memory image).",
 		assumptions: []string{"the reference interpreter harness/ref is the sequential semantics (cross-checked per instruction by C02)", "parallelism p means EU = WU = p on MVP-6.x and p cores on MVP-7.x/8", "a case matching the trigger of a finding listed in /verif/known-findings.txt is not judged on the configurations of that finding (counted under excluded_by_known_finding)", "budget of simulated loop iterations = 16 x (executed instructions + 64) x 309, never wall-clock"},
 	},
 	"C04": {
 		jobs: []job{
-			{name: "pressure", test: "TestC04", rapid: true, checks: [2]int{300, 16000}, shards: [2]int{16, 16}, secs: [2]int{900, 7200}},
+			{name: "pressure", test: "TestC04", rapid: true, checks: [2]int{300, 8000}, shards: [2]int{16, 16}, secs: [2]int{900, 7200}},
 			{name: "forward", test: "TestC04Forward", shards: [2]int{4, 4}, secs: [2]int{600, 600}},
 		},
 		rule:        "forward = one-instruction programs, enumerated: every mnemonic that reads a register x source operand x 14x14 lattice values x four register patterns x plain / rename-table context; the operand's true value is delivered through the forwarding channel while the register file holds another value, and the architectural effect (C02's two oracles) must be the one of the true value. pressure = PRESSURE (2-3 registers, ALU only), PRESSURELOAD (2-4 registers, load producers, slow branches) and PRESSUREMEM (also stores, to the half of memory the loads do not read: a store miss keeps a write unit busy while register results queue up behind it) programs of 3-24 instructions: chains, fans, WAW and WAR pairs, mixed-latency producers, chained forwards; each (case, configuration) is run three times in one process: all three must equal the reference and return the same cycle count. Non-trivial = the dynamic trace holds a RAW, WAW or WAR register dependence at distance <= 4 (classes dep:raw, dep:waw, dep:war, dep:raw-load-producer, dep:chained are counted); distinct by (text, registers, memory image).",
 		assumptions: []string{"the reference interpreter harness/ref is the sequential semantics (cross-checked per instruction by C02)", "parallelism p means EU = WU = p on MVP-6.x and p cores on MVP-7.x/8", "a case matching the trigger of a finding listed in /verif/known-findings.txt is not judged on the configurations of that finding (counted under excluded_by_known_finding)", "budget of simulated loop iterations = 16 x (executed instructions + 64) x 309, never wall-clock"},
 	},
 	"C05": {
-		jobs:        []job{{name: "cache", test: "TestC05", rapid: true, checks: [2]int{400, 15000}, shards: [2]int{16, 16}, secs: [2]int{900, 7200}}},
+		jobs:        []job{{name: "cache", test: "TestC05", rapid: true, checks: [2]int{400, 8000}, shards: [2]int{16, 16}, secs: [2]int{900, 7200}}},
 		rule:        "CACHE (random aligned lb/lh/lw/sb/sh/sw spread over all lines of 2-16 KB memories), WALK (strided loops, strides 1..1024, loads folded into a checksum register, read-modify-write walks) MEMSAFE (loads and stores on disjoint halves) and OWNER (owned and shared lines, accesses waiting behind a miss while the pipeline is redirected) programs on the 29 configurations with a data cache (MVP-3..8), compared with the reference registers and the whole memory after Run returns. Non-trivial = the run touches more than 16 lines of 64 bytes (the smallest data cache) and some line is written, evicted (ideal-LRU replay of that geometry over the reference trace) and read again; distinct by (text, registers, memory image).",
 		assumptions: []string{"the reference interpreter harness/ref is the sequential semantics (cross-checked per instruction by C02)", "parallelism p means EU = WU = p on MVP-6.x and p cores on MVP-7.x/8", "a case matching the trigger of a finding listed in /verif/known-findings.txt is not judged on the configurations of that finding (counted under excluded_by_known_finding)", "budget of simulated loop iterations = 16 x (executed instructions + 64) x 309, never wall-clock"},
 	},
 	"C07": {
 		jobs: []job{
-			{name: "terminates", test: "TestC07Terminates", rapid: true, checks: [2]int{700, 30000}, shards: [2]int{12, 12}, secs: [2]int{900, 7200}},
-			{name: "errors", test: "TestC07Errors", rapid: true, checks: [2]int{400, 40000}, shards: [2]int{4, 4}, secs: [2]int{900, 7200}},
+			{name: "terminates", test: "TestC07Terminates", rapid: true, checks: [2]int{700, 15000}, shards: [2]int{12, 12}, secs: [2]int{900, 7200}},
+			{name: "errors", test: "TestC07Errors", rapid: true, checks: [2]int{400, 20000}, shards: [2]int{4, 4}, secs: [2]int{900, 7200}},
 		},
 		rule:        "terminates: programs of the profiles REG, MEM, SHADOW, WALK, SHADOWSLOW, MEMSAFE, OWNER on all 33 configurations; the outcome must be ok within the budget of simulated loop iterations (a recovered Go panic, a budget overrun or an error is a violation; values are not compared). errors: programs that reach a defined error on the executed path — div/rem by the zero register or by a register holding 0, a taken branch or a jump to an undefined label — early, late, inside a counted loop, right after a long-latency load, or as a slow fault (the dividend is loaded right before, so the division waits while a ret, a taken branch or a first-time jump behind it goes ahead and the error is raised inside a drain loop); the outcome must be an error value (ok, a panic or a budget overrun is a violation). Non-trivial = (terminates) the run has a memory access or a taken transfer, (errors) the reference reaches the fault (always, else the case is skipped); distinct by (text, registers, memory image).",
 		assumptions: []string{"the reference interpreter harness/ref is the sequential semantics (cross-checked per instruction by C02)", "parallelism p means EU = WU = p on MVP-6.x and p cores on MVP-7.x/8", "a case matching the trigger of a finding listed in /verif/known-findings.txt is not judged on the configurations of that finding (counted under excluded_by_known_finding)", "budget of simulated loop iterations = 16 x (executed instructions + 64) x 309, never wall-clock"},
 	},
 	"C09": {
-		jobs:        []job{{name: "tail", test: "TestC09", rapid: true, checks: [2]int{1000, 50000}, shards: [2]int{16, 16}, secs: [2]int{900, 7200}}},
+		jobs:        []job{{name: "tail", test: "TestC09", rapid: true, checks: [2]int{1000, 25000}, shards: [2]int{16, 16}, secs: [2]int{900, 7200}}},
 		rule:        "TAIL programs on the 30 pipelined configurations (MVP-4..8): a random body, then 1-5 controlled last instructions (load missing every cache, load hitting, store to a never-touched line, store to a resident line, two stores back to back, a dependent chain, a producer with no later reader), then the exit point: ret, fall-through, or a taken branch to a final ret; compared with the reference registers and memory. Non-trivial = one of the last five executed instructions is a load or a store (needs >= 3 more cycles at the exit point); distinct by (text, registers, memory image).",
 		assumptions: []string{"the reference interpreter harness/ref is the sequential semantics (cross-checked per instruction by C02)", "parallelism p means EU = WU = p on MVP-6.x and p cores on MVP-7.x/8", "a case matching the trigger of a finding listed in /verif/known-findings.txt is not judged on the configurations of that finding (counted under excluded_by_known_finding)", "budget of simulated loop iterations = 16 x (executed instructions + 64) x 309, never wall-clock"},
 	},
 	"C10": {
-		jobs:        []job{{name: "pairs", test: "TestC10", rapid: true, checks: [2]int{1000, 40000}, shards: [2]int{16, 16}, secs: [2]int{900, 7200}}},
+		jobs:        []job{{name: "pairs", test: "TestC10", rapid: true, checks: [2]int{1000, 20000}, shards: [2]int{16, 16}, secs: [2]int{900, 7200}}},
 		rule:        "PAIR programs on the 30 pipelined configurations: store->load, load->store and store->store pairs on the same byte/half/word, on different bytes of one word and on another word of the line, at dynamic distance 1..12, through two independent address registers (no register hazard orders the pair), first access hit or miss (line pre-touched or not), optionally separated by a taken branch; compared with the reference (loaded values and memory). Non-trivial = the reference trace holds a byte-overlapping conflicting pair at distance <= 14 (classes conflict:<kind>:<distance bucket>); distinct by (text, registers, memory image).",
 		assumptions: []string{"the reference interpreter harness/ref is the sequential semantics (cross-checked per instruction by C02)", "parallelism p means EU = WU = p on MVP-6.x and p cores on MVP-7.x/8", "a case matching the trigger of a finding listed in /verif/known-findings.txt is not judged on the configurations of that finding (counted under excluded_by_known_finding)", "budget of simulated loop iterations = 16 x (executed instructions + 64) x 309, never wall-clock"},
 	},
